@@ -6,7 +6,10 @@ CONSTANTS
   RouterMACs = {rm1, rm2}
   HostLLA = hostlla
   AllNodes = allnodes
-  LLAs = {l1, l2}
+  LLAs = {l1, l2, lz1, lx1, lx2}
+  ZLLA = lz1
+  ZBase = l1
+  ExtraLLAs = {}
   GUAs = {g1, ula1, unspec6, loop6, mc5, map4, allnodes}
   CaptureMACs = {}
   OtherV6 = {ula1, unspec6, loop6, mc5, map4, allnodes}
